@@ -63,6 +63,14 @@ CLAIMED = {
         "correspondence + oracle (known finding D24).",
         technique="Lean 4 proof (covering-step completeness with a gap measure, work-list invariant, least closed set) + model/implementation correspondence check",
         ref="6/C10"),
+ "C15": dict(text="On the model (the pure calculus: composite operators unfolded to anonymous functions, leftmost-outermost beta reduction on de Bruijn terms): C15_unfold_complete, "
+        "C15_no_redex / C15_normal_partial (the result has no composite operator and no reducible application, for definitions in dependency order; counterexample for a recursive definition), "
+        "C15_idempotent (expanding again changes nothing), C15_sound / C15_primitive_is_reduction (only unfolding and beta steps), C15_confluent + C15_normal_form_unique + C15_equals_normal_form "
+        "(Church-Rosser: the result IS the normal form, however computed), C15_complete / C15_none_iff_no_normal_form, C15_standard_agrees (an independent applicative-order evaluator agrees), "
+        "C15_fuel_monotone. Partial: the model is tied to primitive() on expressions whose definitions use every parameter at most once; definitions that duplicate a parameter crash the "
+        "implementation (known finding D8) and are outside the model; type preservation and 'expands without type error in a language that validates' are decided by the oracle.",
+        technique="Lean 4 proof (substitution lemmas, parallel reduction / Church-Rosser, standardisation) + model/implementation correspondence check + independent normaliser oracle",
+        ref="6/C15"),
  "C16": dict(text="On the model (definitions are immutable data; the inference store is the only thing threaded between uses): C16_instantiate_fresh / C16_instantiate_twice_disjoint, C16_unify_frame / "
         "C16_fix_frame / C16_apply_frame / C16_definitions_untouched (only variables reachable from the current terms or freshly allocated change), C16_history_independent (instantiating a schema and "
         "applying it to concrete arguments after ANY history gives the shifted result of the same run from the empty store), C16_history_content_irrelevant. Partial: constraint-free engine; the "
